@@ -674,14 +674,11 @@ func (e *Engine) convert(x Value, from, to types.Type) Value {
 				return Str{e.sliceTerms(s)}
 			}
 			if bvWidth(f.Elem()) == 32 { // []rune
-				var out []rune
+				var out []*smt.Term
 				for _, t := range e.sliceTerms(s) {
-					if !t.IsConst() {
-						e.unsupported("string([]rune) of symbolic runes")
-					}
-					out = append(out, rune(t.SConst()))
+					out = append(out, e.encodeRune(t)...)
 				}
-				return ConstStr(string(out))
+				return Str{out}
 			}
 		}
 	}
@@ -732,6 +729,32 @@ func (e *Engine) convert(x Value, from, to types.Type) Value {
 	}
 	e.unsupported("convert %s -> %s", from, to)
 	return nil
+}
+
+// encodeRune produces the UTF-8 encoding of a (possibly symbolic) rune, forking on its size class.
+func (e *Engine) encodeRune(r *smt.Term) []*smt.Term {
+	if r.IsConst() {
+		return ConstStr(string(rune(int32(r.SConst())))).B
+	}
+	c := func(v uint64) *smt.Term { return smt.BV(v, 32) }
+	b := func(t *smt.Term) *smt.Term { return smt.Extract(t, 0, 8) }
+	or := func(k uint64, t *smt.Term) *smt.Term { return smt.Or(smt.BV(k, 8), b(t)) }
+	sh := func(t *smt.Term, n uint64) *smt.Term { return smt.Bin(smt.OpLShr, t, c(n)) }
+	m6 := func(t *smt.Term) *smt.Term { return smt.And(t, c(0x3F)) }
+	if e.choose(smt.Cmp(smt.OpUlt, r, c(0x80))) {
+		return []*smt.Term{b(r)}
+	}
+	if e.choose(smt.Cmp(smt.OpUlt, r, c(0x800))) {
+		return []*smt.Term{or(0xC0, sh(r, 6)), or(0x80, m6(r))}
+	}
+	bad := smt.BOr(smt.BAnd(smt.Cmp(smt.OpUle, c(0xD800), r), smt.Cmp(smt.OpUle, r, c(0xDFFF))), smt.Cmp(smt.OpUlt, c(0x10FFFF), r))
+	if e.choose(bad) {
+		return ConstStr("\uFFFD").B
+	}
+	if e.choose(smt.Cmp(smt.OpUlt, r, c(0x10000))) {
+		return []*smt.Term{or(0xE0, sh(r, 12)), or(0x80, m6(sh(r, 6))), or(0x80, m6(r))}
+	}
+	return []*smt.Term{or(0xF0, sh(r, 18)), or(0x80, m6(sh(r, 12))), or(0x80, m6(sh(r, 6))), or(0x80, m6(r))}
 }
 
 func (e *Engine) sliceTerms(s Slice) []*smt.Term {
